@@ -47,7 +47,7 @@ def work(tier, seed):
     small.sort(key=lambda s: -prod(s))
     n = 16 * 4
     units = big + [small[i::n] for i in range(n) if small[i::n]]
-    return [{"shapes": u} for u in units]
+    return [{"shapes": u} for u in units] + [{"huge": True}]
 
 
 # ----------------------------------------------------------------------------- reference
@@ -176,12 +176,56 @@ def _fns():
     }
 
 
+def check_huge(torch, fns):
+    """indices beyond 2^53 (exact integer arithmetic is required; no tensor of that size is allocated - only the tiny shard):
+    the decomposition of [s, e) is invariant under translation by whole leading slices, so the pieces for a huge offset must
+    have the shapes of the pieces for the same range moved next to the origin (which the DP reference validates)."""
+    out, n = [], 0
+    for inner in ((3,), (35, 3), (5, 7), (2, 3, 4)):
+        slice_n = prod(inner)
+        for lead_off in (2 ** 53 + 1, 2 ** 60 + 3):
+            for a in range(0, 2 * slice_n + 1, max(1, slice_n // 4)):
+                for length in (1, slice_n - 1, slice_n, slice_n + 2, 2 * slice_n + 1):
+                    if length <= 0:
+                        continue
+                    small_shape = (6,) + inner
+                    big_shape = (lead_off + 6,) + inner
+                    s0, e0 = slice_n + a, slice_n + a + length
+                    if e0 > prod(small_shape):
+                        continue
+                    shift = (lead_off - 1) * slice_n
+                    n += 1
+                    sig = {}
+                    for name, fn in fns.items():
+                        try:
+                            ref = tuple(tuple(t.shape) for t in fn(torch.zeros(length), torch.Size(small_shape), s0, e0))
+                            got = tuple(tuple(t.shape) for t in fn(torch.zeros(length), torch.Size(big_shape), s0 + shift, e0 + shift))
+                        except Exception as e:
+                            out.append(({"huge": True, "inner": list(inner), "start": s0 + shift, "len": length, "copy": name}, f"{name} shape={big_shape} [{s0 + shift},{e0 + shift}): raised {type(e).__name__}: {str(e)[:80]}"))
+                            continue
+                        sig[name] = got
+                        if got != ref:
+                            out.append(({"huge": True, "inner": list(inner), "start": s0 + shift, "len": length, "copy": name}, f"{name} shape={big_shape} [{s0 + shift},{e0 + shift}): pieces {got}, the same range moved by whole leading slices to [{s0},{e0}) gives {ref}"))
+                    if len(sig) == 2 and sig["fsdp"] != sig["hsdp"]:
+                        out.append(({"huge": True, "inner": list(inner), "start": s0 + shift, "len": length, "copy": "both"}, f"copies disagree for shape={big_shape} [{s0 + shift},{e0 + shift}): {sig}"))
+    return out, n
+
+
 def run_unit(unit):
     import torch
     from .. import common
 
     fns = _fns()
     res = {"evals": 0, "transitions": 0, "states": [], "outcomes": set(), "nontrivial_count": 0, "violations": [], "samples": [], "stats": {"max_pieces": 0, "must_raise_checked": 0}}
+    if unit.get("huge"):
+        bad, n = check_huge(torch, fns)
+        res["evals"] = res["transitions"] = n
+        res["stats"]["huge_index_cases"] = n
+        res["states"] = [common.h64("huge")]
+        res["outcomes"] = [common.h64(len(bad))]
+        for case, m in bad[:10]:
+            res["violations"].append({"case": case, "msg": m, "kind": "huge"})
+        return res
     for shape in unit["shapes"]:
         shape = tuple(shape)
         n = prod(shape) if shape else 1
@@ -254,6 +298,9 @@ def replay(case):
     import torch
 
     fns = _fns()
+    if case.get("huge"):
+        bad, _ = check_huge(torch, fns)
+        return [m for c, m in bad if c == case]
     shape = tuple(case["shape"])
     n = prod(shape) if shape else 1
     names = ["fsdp", "hsdp"] if case.get("copy") == "both" else [case["copy"]]
